@@ -160,9 +160,12 @@ def run(tier):
         abb, at = ackc[0]
         te = pbf.ok_edges(at.dest.local)
         clr = [bb for bb, t2 in pbf.calls_to('Uplink::clear_downlink_confirmation')]
-        okc = len(clr) == 1 and te and pbf.guarded_by_edges(clr[0], te)
+        # the flag is read first, then cleared on every path on which it was set (clearing a flag that is not set changes nothing, so an
+        # unconditional clear after the read is the same behaviour as `if ack { clear }`)
+        okc = len(clr) == 1 and pbf.cfg.dominates(abb, clr[0]) and clr[0] != abb
         if okc:
-            for (u, v) in te:
+            starts = [v for (u, v) in te] if te else list(pbf.cfg.succ[abb])
+            for v in starts:
                 if v not in clr and pbf.returns_reachable(v, avoid_nodes=clr):
                     okc = False
         res.require(okc, 'C12:prepare_buffer:ack-not-cleared', 'an uplink carrying ACK does not clear the owed confirmation on every path', site,
@@ -267,24 +270,25 @@ def run(tier):
     res.require(val_ok, 'C12:rx2_complete:backoff-value', 'back-off does not store next_lower_datarate(region, data_rate): %s' % term_str(v), short_site(rbf, bb, si),
                 'SAME-VALUE(back-off rate)', instance='back-off stores Some-payload of next_lower_datarate(region, configuration.data_rate)')
     g_adr = has_true(cs, fld(rconf, 'adr_enabled'))
-    lim = ('const', ADR_ACK_LIMIT + ADR_ACK_DELAY)
-    # cnt >= 96 in any comparison form / polarity (cnt >= 96, !(cnt < 96), cnt > 95, ...)
-    g_ge = rules.implies_order(cs, '<=', lim, cnt_t)
-
-    def is_ge_limit(x):
-        return rules.implies_order([x], '<=', lim, cnt_t) and not rules.implies_order([x], '<=', ('const', lim[1] + 1), cnt_t)
-    g_mul = False
-    for x in cs:
-        if cond_true(x) and x[0][0] == 'call' and x[0][1].endswith('is_multiple_of'):
-            a0, a1 = x[0][2]
-            g_mul = a0[0] == 'Sub' and a0[1] == cnt_t and is_const_cast(a0[2], ADR_ACK_LIMIT) and is_const_cast(a1, ADR_ACK_DELAY)
+    # the conditions on the counter, in whatever spelling (cnt >= 96 then (cnt - 64) % 32 == 0; checked_sub(64) is Some(p), p > 0,
+    # p % 32 == 0; ...), are decided as a predicate of one counter: they must hold exactly for cnt = 96, 128, 160, ... .
+    # Thresholds and the modulus are small constants, so agreement on 0..4096 is agreement everywhere (and at u32::MAX, checked apart).
+    cnt_conds = [x for x in cs if term_contains(x[0], lambda y: y == cnt_t)]
+    g_cnt = bool(cnt_conds)
+    bad_n = None
+    for n in list(range(0, 4097)) + [0xFFFFFFFF, 0xFFFFFFFF - 31, 0xFFFFFFE0]:
+        got = rules.conds_hold(cnt_conds, {cnt_t: n})
+        want = n >= ADR_ACK_LIMIT + ADR_ACK_DELAY and (n - ADR_ACK_LIMIT) % ADR_ACK_DELAY == 0
+        if got is None or got != want:
+            g_cnt, bad_n = False, (n, got, want)
+            break
     g_some = any(x[0][0] == 'discr' and x[0][1][:2] == nl and x[1] in ((1,), ('not', (0,))) for x in cs)
-    res.require(g_adr and g_ge and g_mul and g_some, 'C12:rx2_complete:backoff-guard',
-                'back-off guard is not adr ∧ cnt >= 96 ∧ (cnt-64) %% 32 == 0 ∧ Some(lower): adr=%s ge=%s mul=%s some=%s' % (g_adr, g_ge, g_mul, g_some),
-                short_site(rbf, bb, si), 'SHAPE(back-off guard)', instance='back-off guard: adr_enabled ∧ cnt >= 96 ∧ (cnt-64) %% 32 == 0 ∧ lower rate exists')
+    res.require(g_adr and g_cnt and g_some, 'C12:rx2_complete:backoff-guard',
+                'back-off guard is not adr ∧ cnt >= 96 ∧ (cnt-64) %% 32 == 0 ∧ Some(lower): adr=%s counter-predicate=%s%s some=%s' % (
+                    g_adr, g_cnt, '' if bad_n is None else ' (cnt=%d: guard %s, specification %s)' % bad_n, g_some),
+                short_site(rbf, bb, si), 'DECIDE(counter guard over its finite structure)', instance='back-off guard: adr_enabled ∧ cnt >= 96 ∧ (cnt-64) %% 32 == 0 ∧ lower rate exists')
     bo_allowed = [not_expired, adr_on,
-                  is_ge_limit,
-                  lambda x: cond_true(x) and x[0][0] == 'call' and x[0][1].endswith('is_multiple_of'),
+                  lambda x: x in cnt_conds,
                   lambda x: x[0][0] == 'discr' and x[0][1][:2] == nl and x[1] in ((1,), ('not', (0,)))]
     extra = extra_conditions(cs, bo_allowed)
     res.require(not extra, 'C12:rx2_complete:backoff-extra-guard', 'back-off has an additional guard: %s' % [(term_str(x[0]), x[1]) for x in extra],
